@@ -184,6 +184,9 @@ def run(ctx):
     from checks import reactor_common as RC
     RC.pruning_differential(ctx, budget_frac=1.0)
     flush(ctx)
+    if not ctx.quick and ctx.shard == 0:
+        from vmon import suite
+        suite.run_under(ctx, "c11")  # the repository's own tests with this monitor installed
 
 
 def replay(ctx, v):
